@@ -20,6 +20,8 @@ type ChildResult struct {
 	Panic    string // first line of a panic / fatal error, "" if none
 	Races    []RaceReport
 	Dir      string
+	// BedFailure: heimdall could not bind a listener (port taken) in every attempt - inconclusive, never a verdict
+	BedFailure bool
 }
 
 type RaceReport struct {
@@ -38,6 +40,25 @@ func ChildArg(name string) string { return os.Getenv("VERIF_CHILD_" + name) }
 // Crashes of the code under test therefore never take the monitor down. The child's race reports go
 // to <dir>/race.* (GORACE log_path), halt_on_error=0.
 func (r *Run) RunChild(testName, role string, args map[string]string, timeout time.Duration) ChildResult {
+	var res ChildResult
+	for attempt := 0; attempt < 4; attempt++ {
+		res = r.runChildOnce(testName, role, args, timeout)
+		// a listener port handed out by the kit was taken by some other process before heimdall bound it: heimdall logs
+		// fatally and exits(1). That is a property of the test bed, not of the code under test: run the batch again.
+		if res.Exit == 1 && res.Panic == "" && len(res.Races) == 0 {
+			if b, err := os.ReadFile(res.Output); err == nil && strings.Contains(string(b), "HEIMDALL-FATAL:") && strings.Contains(string(b), "listener") {
+				r.Count("child_restarts_after_port_collision", 1)
+				res.BedFailure = true
+				continue
+			}
+		}
+		res.BedFailure = false
+		break
+	}
+	return res
+}
+
+func (r *Run) runChildOnce(testName, role string, args map[string]string, timeout time.Duration) ChildResult {
 	dir, _ := os.MkdirTemp(r.RunDir, "child-")
 	out := filepath.Join(dir, "output.txt")
 	f, _ := os.Create(out)
